@@ -38,7 +38,7 @@ CENSUS = {
     ("3", "propagate:<common::RegisteredLabel<T> as common::AsCborValue>::from_cbor_value"),
     ("3", "err:UnexpectedItem@is_empty"), ("3", "err:UnexpectedItem@ne+trim"), ("3", "err:UnexpectedItem@count+matches"),
     ("4", "propagate:" + codec.TRY_NONEMPTY), ("5", "propagate:" + codec.TRY_NONEMPTY), ("6", "propagate:" + codec.TRY_NONEMPTY),
-    ("7", "propagate:core::option::Option::<T>::ok_or"),           # nesting budget (C01 repair)
+    ("7", "err:DecodeFailed@checked_sub"),                        # nesting budget exhausted (C01 repair)
     ("7", "propagate:" + codec.TRY_ARRAY), ("7", "err:UnexpectedItem@is_empty"), ("7", "type-error:slot?"),
     ("7", "propagate:sign::CoseSignature::from_cbor_value_depth"),
     ("all", "err:iv-and-partial-iv"),                              # IV and Partial IV both present (R-2 truth table)
